@@ -131,7 +131,11 @@ class Scenario:
                 log = BrowserLog(w, host, lookups)
                 # some variants browse a second type that nobody offers (a multi-type browser must not lose the first)
                 types = [type_, "_unoffered._tcp.local."] if self.variant.get("multi") else type_
-                AsyncServiceBrowser(host.zc, types, listener=log)
+                kw = {}
+                if self.variant.get("qm"):
+                    from zeroconf import DNSQuestionType
+                    kw["question_type"] = DNSQuestionType.QM  # the application forces multicast questions from the start
+                AsyncServiceBrowser(host.zc, types, listener=log, **kw)
                 browsers[key] = (log, type_)
 
             def registered_at(t: float, type_: str) -> set:
@@ -287,6 +291,9 @@ def plan(tier: str) -> List[Tuple[str, Dict[str, Any], int]]:
             ("leave", {"browse_at": 5000, "after": 30, "how": "unregister", "late": True}, 2),
             ("leave", {"browse_at": 5000, "after": 30, "how": "close", "late": True}, 2),
             ("leave", {"browse_at": 5000, "after": 130, "how": "close"}, 2),
+            # a joiner asking by multicast right after the third announcement: its answer is held by the one-second protection
+            ("leave", {"browse_at": 1850, "after": 450, "how": "unregister", "late": True, "qm": True}, 2),
+            ("leave", {"browse_at": 1850, "after": 450, "how": "close", "late": True, "qm": True}, 1),
             ("leave", {"browse_at": 5000, "after": 30, "how": "unregister", "late": True, "socks": "dual"}, 2),
             ("leave", {"browse_at": 5000, "after": 130, "how": "close", "late": True, "socks": "dual"}, 2),
             # the same link with IPv6-only hosts, and with hosts that send on an IPv4 and an IPv6 socket (every datagram twice)
@@ -305,7 +312,7 @@ def run(tier: str, seed: int) -> Tuple[Stats, str, List[str], Dict[str, Any]]:
             raise HarnessError(f"C07 scenario {name} is not deterministic")
         if a[0] is None and a[2] < 8:
             raise HarnessError(f"C07 scenario {name} is vacuous: {a[2]} datagrams in the default execution")
-        label = f"{name}/{variant['browse_at']}{'/late' if variant.get('late') else ''}{'/multi' if variant.get('multi') else ''}{'/' + variant['socks'] if variant.get('socks') else ''}{'/' + variant['how'] + '+' + str(variant['after']) if name == 'leave' else ''}" + (
+        label = f"{name}/{variant['browse_at']}{'/late' if variant.get('late') else ''}{'/multi' if variant.get('multi') else ''}{'/' + variant['socks'] if variant.get('socks') else ''}{'/' + variant['how'] + '+' + str(variant['after']) if name == 'leave' else ''}{'/qm' if variant.get('qm') else ''}" + (
             f"/unreg+{variant['unregister_after']}" if name == "churn" else "")
         done = explore_deviations(sc.run, bound, stats, label,
                                   max_execs=None if tier == "quick" else 1_500_000)
